@@ -59,20 +59,34 @@ Proof. destruct t; reflexivity. Qed.
 Lemma starts_underscore_eq n : starts_underscore n = sp_private n.
 Proof. destruct n as [|c n]; reflexivity. Qed.
 
-Lemma arg_of_param_spec as_pos p :
-  arg_of_param as_pos p = if sp_offered p then Some (mk_arg as_pos p) else None.
+Lemma sig_guard2_cons p s : sig_guard2 (p :: s) = true -> priv_opt_nodefault p = false /\ sig_guard2 s = true.
 Proof.
-  unfold arg_of_param, sp_offered, mk_arg, sp_required, sp_ty, sp_default.
-  rewrite is_optional_eq, starts_underscore_eq.
-  destruct (p_default p) as [v|]; simpl.
-  - destruct (sp_private (p_name p)); simpl; auto.
-  - destruct (sp_is_opt (p_ty p)); simpl; destruct (sp_private (p_name p)); simpl; auto.
+  unfold sig_guard2. simpl. rewrite negb_orb. intro H. apply andb_true_iff in H. destruct H as [H1 H2].
+  apply negb_true_iff in H1. auto.
 Qed.
 
-Lemma args_of_sig_spec as_pos s : args_of_sig as_pos s = map (mk_arg as_pos) (filter sp_offered s).
+Lemma sig_guard2_In p s : sig_guard2 s = true -> In p s -> priv_opt_nodefault p = false.
 Proof.
-  induction s as [|p s IH]; simpl; auto.
-  unfold args_of_sig in *. simpl. rewrite arg_of_param_spec, IH.
+  induction s as [|q s IH]; [intros _ []|]. intros H [HI|HI]; apply sig_guard2_cons in H; destruct H; subst; auto.
+Qed.
+
+(* outside the second finding class the code's table is the spec's: offered parameters, in order *)
+Lemma arg_of_param_spec as_pos p :
+  priv_opt_nodefault p = false ->
+  arg_of_param as_pos p = if sp_offered p then Some (mk_arg as_pos p) else None.
+Proof.
+  unfold arg_of_param, priv_opt_nodefault, sp_offered, mk_arg, sp_required, sp_ty, sp_default.
+  rewrite is_optional_eq, starts_underscore_eq.
+  destruct (p_default p) as [v|]; simpl.
+  - intros _. destruct (sp_private (p_name p)); simpl; auto.
+  - destruct (sp_is_opt (p_ty p)); simpl; destruct (sp_private (p_name p)); simpl; auto; discriminate.
+Qed.
+
+Lemma args_of_sig_spec as_pos s :
+  sig_guard2 s = true -> args_of_sig as_pos s = map (mk_arg as_pos) (filter sp_offered s).
+Proof.
+  induction s as [|p s IH]; simpl; auto. intro HG. apply sig_guard2_cons in HG. destruct HG as [HG1 HG2].
+  unfold args_of_sig in *. simpl. rewrite arg_of_param_spec, IH by auto.
   destruct (sp_offered p); reflexivity.
 Qed.
 
@@ -86,14 +100,14 @@ Proof.
 Qed.
 
 Lemma find_arg_spec as_pos s n :
-  NoDup (names s) ->
+  sig_guard2 s = true -> NoDup (names s) ->
   find_arg n (args_of_sig as_pos s) =
   match sp_find n s with
   | Some p => if sp_offered p then Some (mk_arg as_pos p) else None
   | None => None
   end.
 Proof.
-  rewrite args_of_sig_spec.
+  intro HG. rewrite args_of_sig_spec by auto. clear HG.
   induction s as [|p s IH]; simpl; auto. intro ND. inversion ND as [|? ? Hn ND']; subst.
   destruct (str_eqb n (p_name p)) eqn:E.
   - apply str_eqb_spec in E. subst n.
@@ -128,10 +142,11 @@ Proof.
 Qed.
 
 Lemma filter_pos_spec as_pos s :
+  sig_guard2 s = true ->
   filter a_pos (args_of_sig as_pos s) =
   map (mk_arg as_pos) (filter (fun p => sp_offered p && (sp_required p && as_pos)) s).
 Proof.
-  rewrite args_of_sig_spec. induction s as [|p s IH]; simpl; auto.
+  intro HG. rewrite args_of_sig_spec by auto. clear HG. induction s as [|p s IH]; simpl; auto.
   destruct (sp_offered p); simpl; auto.
   destruct (sp_required p && as_pos); simpl; rewrite IH; auto.
 Qed.
@@ -173,19 +188,27 @@ Proof.
   - destruct HI as [HI|HI]; [subst; rewrite str_eqb_refl in E; discriminate|]. eapply IH; eauto.
 Qed.
 
-Lemma dests_of_sig as_pos s : NoDup (names s) -> NoDup (map a_dest (args_of_sig as_pos s)).
+Lemma arg_of_param_dest as_pos p a : arg_of_param as_pos p = Some a -> a_dest a = p_name p.
 Proof.
-  rewrite args_of_sig_spec. unfold names. induction s as [|p s IH]; simpl; [constructor|].
-  intro ND. inversion ND; subst. destruct (sp_offered p); simpl; auto.
-  constructor; auto. intro HI. apply H1. rewrite map_map in HI. simpl in HI.
-  apply in_map_iff in HI. destruct HI as [q [Hq1 Hq2]]. apply filter_In in Hq2. destruct Hq2.
-  rewrite <- Hq1. apply in_map. auto.
+  unfold arg_of_param. destruct (_ && _); [discriminate|]. intro H. inversion H. reflexivity.
 Qed.
 
 Lemma dests_subset as_pos s a : In a (args_of_sig as_pos s) -> In (a_dest a) (names s).
 Proof.
-  rewrite args_of_sig_spec. intro H. apply in_map_iff in H. destruct H as [p [H1 H2]]. subst.
-  apply filter_In in H2. destruct H2. simpl. apply in_map. auto.
+  unfold args_of_sig. intro H. apply in_flat_map in H. destruct H as [p [H1 H2]].
+  destruct (arg_of_param as_pos p) as [a'|] eqn:E; [|destruct H2]. destruct H2 as [H2|[]]. subst a'.
+  rewrite (arg_of_param_dest _ _ _ E). apply in_map. exact H1.
+Qed.
+
+Lemma dests_of_sig as_pos s : NoDup (names s) -> NoDup (map a_dest (args_of_sig as_pos s)).
+Proof.
+  induction s as [|p s IH]; simpl; [constructor|].
+  intro ND. inversion ND as [|? ? Hn ND']; subst.
+  change (args_of_sig as_pos (p :: s)) with
+    ((match arg_of_param as_pos p with Some a => [a] | None => [] end) ++ args_of_sig as_pos s).
+  destruct (arg_of_param as_pos p) as [a|] eqn:E; simpl; auto.
+  constructor; auto. rewrite (arg_of_param_dest _ _ _ E). intro HI. apply Hn.
+  apply in_map_iff in HI. destruct HI as [b [Hb1 Hb2]]. rewrite <- Hb1. eapply dests_subset; eauto.
 Qed.
 
 Section Sim.
@@ -515,19 +538,22 @@ Section Sim.
   Qed.
 
   (* ---- the level's --config option ------------------------------------------------------------- *)
-  Lemma nonempty_args s : nonempty (args_of_sig as_pos s) = offers s.
+  Lemma nonempty_args s : sig_guard2 s = true -> nonempty (args_of_sig as_pos s) = offers s.
   Proof.
-    rewrite args_of_sig_spec. unfold offers. induction s as [|p s IH]; simpl; auto.
+    intro HG. rewrite args_of_sig_spec by auto. clear HG. unfold offers. induction s as [|p s IH]; simpl; auto.
     destruct (sp_offered p); simpl; auto.
   Qed.
 
   Lemma has_config_eq top lv cn mn :
     lv_wf lv -> level_has_config as_pos top lv = sl_has_config top (slv_of lv cn mn).
   Proof.
-    destruct lv as [[n s|n i ms|kids|]|s]; simpl; try tauto; intros _.
-    - rewrite nonempty_args. reflexivity.
-    - rewrite nonempty_args. f_equal. induction ms as [|ms0 ms IH]; simpl; auto. rewrite nonempty_args, IH. reflexivity.
-    - rewrite nonempty_args. reflexivity.
+    destruct lv as [[n s|n i ms|kids|]|s]; simpl; try tauto; intro HW.
+    - apply comp_wf_fn in HW. rewrite nonempty_args by tauto. reflexivity.
+    - apply comp_wf_cls in HW. destruct HW as [_ [_ [_ [HG HM]]]]. rewrite nonempty_args by auto. f_equal.
+      induction ms as [|[m0 s0] ms IH]; simpl; auto.
+      rewrite nonempty_args by (apply (HM m0 s0); left; auto). rewrite IH; auto.
+      intros m s HI. apply (HM m s). right. exact HI.
+    - rewrite nonempty_args by tauto. reflexivity.
   Qed.
 
   (* ---- the simulation invariant: the namespace of a level is the fold of the assignments seen --- *)
@@ -541,7 +567,7 @@ Section Sim.
     | Some p => if sp_offered p then Some (mk_arg as_pos p) else None
     | None => None
     end.
-  Proof. intro HW. apply find_arg_spec. apply lv_wf_nodup. exact HW. Qed.
+  Proof. intro HW. apply find_arg_spec; [apply lv_wf_guard2|apply lv_wf_nodup]; exact HW. Qed.
 
   Lemma inv_set top lv st asg k r p v :
     lv_wf lv -> inv top lv st asg ->
@@ -665,10 +691,10 @@ Section Sim.
   Proof. intro H. destruct hcb; simpl; auto. rewrite str_eqb_false; auto. Qed.
 
   Lemma valid_conv s asg p :
-    NoDup (names s) -> In p s -> sp_offered p = true -> asg_valid (args_of_sig as_pos s) asg ->
+    sig_guard2 s = true -> NoDup (names s) -> In p s -> sp_offered p = true -> asg_valid (args_of_sig as_pos s) asg ->
     forall r, last_asg (p_name p) asg = Some r -> exists v, conv (sp_ty p) r = Some v.
   Proof.
-    intros ND HI HO HV r HL. apply last_asg_In in HL. destruct (HV _ _ HL) as [a [v [HF HC]]].
+    intros HG ND HI HO HV r HL. apply last_asg_In in HL. destruct (HV _ _ HL) as [a [v [HF HC]]].
     rewrite find_arg_spec, (sp_find_In s p ND HI), HO in HF by auto. inversion HF; subst a. eauto.
   Qed.
 
@@ -687,12 +713,18 @@ Section Sim.
   Qed.
 
   Lemma assoc_param s asg p :
-    NoDup (names s) -> In p s ->
+    sig_guard2 s = true -> NoDup (names s) -> In p s ->
     assoc (p_name p) (ns_args (args_of_sig as_pos s) asg) =
     if sp_offered p then Some (arg_value asg (mk_arg as_pos p)) else None.
   Proof.
-    intros ND HI. rewrite assoc_ns_args, find_arg_spec, (sp_find_In s p ND HI) by auto.
+    intros HG ND HI. rewrite assoc_ns_args, find_arg_spec, (sp_find_In s p ND HI) by auto.
     destruct (sp_offered p); reflexivity.
+  Qed.
+
+  Lemma not_offered_not_required p : sp_offered p = false -> sp_required p = false.
+  Proof.
+    unfold sp_offered, sp_required, sp_default. intro H. apply orb_false_iff in H. destruct H as [_ H].
+    destruct (p_default p); [reflexivity|discriminate].
   Qed.
 
   Lemma forallb_ext_in {A} (f g : A -> bool) l : (forall x, In x l -> f x = g x) -> forallb f l = forallb g l.
@@ -707,21 +739,21 @@ Section Sim.
   Qed.
 
   Lemma check_required_spec s asg hcb :
-    NoDup (names s) -> ~ In s_config (names s) -> asg_valid (args_of_sig as_pos s) asg ->
+    sig_guard2 s = true -> NoDup (names s) -> ~ In s_config (names s) -> asg_valid (args_of_sig as_pos s) asg ->
     check_required (args_of_sig as_pos s) (cfg_entry hcb ++ ns_args (args_of_sig as_pos s) asg) =
     sp_complete conv s asg.
   Proof.
-    intros ND NC HV. unfold check_required, sp_complete.
-    rewrite args_of_sig_spec at 1. rewrite forallb_map_filter.
+    intros HG ND NC HV. unfold check_required, sp_complete.
+    rewrite (args_of_sig_spec as_pos s HG) at 1. rewrite forallb_map_filter.
     apply forallb_ext_in. intros p HI. cbn [a_req a_dest mk_arg].
     destruct (sp_offered p) eqn:HO.
     - cbn [negb orb]. rewrite assoc_entry by (intro X; apply NC; rewrite <- X; apply in_map; exact HI).
-      rewrite (assoc_param s asg p ND HI), HO.
-      pose proof (value_match asg p HO (valid_conv s asg p ND HI HO HV)) as HM.
+      rewrite (assoc_param s asg p HG ND HI), HO.
+      pose proof (value_match asg p HO (valid_conv s asg p HG ND HI HO HV)) as HM.
       destruct (sp_value conv asg p) as [v|].
       + rewrite HM. reflexivity.
       + destruct HM as [HM _]. rewrite HM. reflexivity.
-    - unfold sp_offered in HO. apply orb_false_iff in HO. destruct HO as [HO _]. rewrite HO. reflexivity.
+    - rewrite (not_offered_not_required p HO). reflexivity.
   Qed.
 
   Lemma bind_params_spec s0 asg :
@@ -734,25 +766,18 @@ Section Sim.
     - exists []. auto.
     - destruct IH as [b [Hb1 Hb2]]; [intros; apply HS; right; auto|].
       assert (HI : In p s0) by (apply HS; left; auto).
-      cbn [sp_bind bind_params]. rewrite Hb1, Hb2. rewrite (assoc_param s0 asg p ND HI).
+      cbn [sp_bind bind_params]. rewrite Hb1, Hb2. rewrite (assoc_param s0 asg p HG ND HI).
       unfold sp_complete in HC. rewrite forallb_forall in HC. specialize (HC _ HI).
       destruct (sp_offered p) eqn:HO.
-      + pose proof (value_match asg p HO (valid_conv s0 asg p ND HI HO HV)) as HM.
+      + pose proof (value_match asg p HO (valid_conv s0 asg p HG ND HI HO HV)) as HM.
         destruct (sp_value conv asg p) as [v|].
         * rewrite HM. exists ((p_name p, v) :: b). auto.
         * destruct HM as [_ HM]. rewrite HM in HC. discriminate.
       + assert (HD : sp_value conv asg p = sp_default p) by (unfold sp_value; rewrite HO; reflexivity).
         rewrite HD.
         assert (HP : p_default p = sp_default p /\ exists v, sp_default p = Some v).
-        { unfold sp_offered in HO. apply orb_false_iff in HO. destruct HO as [HR HP]. apply negb_false_iff in HP.
-          unfold sig_guard2 in HG. apply negb_true_iff in HG.
-          assert (HX : priv_opt_nodefault p = false).
-          { destruct (priv_opt_nodefault p) eqn:E; auto.
-            assert (existsb priv_opt_nodefault s0 = true) by (apply existsb_exists; eauto). congruence. }
-          unfold priv_opt_nodefault in HX. rewrite starts_underscore_eq, HP, is_optional_eq in HX.
-          unfold sp_required in HR. unfold sp_default in *.
-          destruct (p_default p) as [v|]; [split; eauto|].
-          destruct (sp_is_opt (p_ty p)); simpl in *; discriminate. }
+        { unfold sp_offered in HO. apply orb_false_iff in HO. destruct HO as [_ HP].
+          unfold sp_default. destruct (p_default p) as [v|]; [split; eauto|discriminate]. }
         destruct HP as [HP1 [v HP2]]. rewrite HP1, HP2. exists ((p_name p, v) :: b). auto.
   Qed.
 
@@ -839,6 +864,7 @@ Section Sim.
     check_required (level_args as_pos lv) (ls_ns st) = sp_complete conv (level_sig lv) asg.
   Proof.
     intros HW [H1 H2]. rewrite H1. apply check_required_spec; auto.
+    - apply lv_wf_guard2; auto.
     - apply lv_wf_nodup; auto.
     - apply lv_wf_noconfig; auto.
   Qed.
@@ -903,12 +929,12 @@ Section Sim.
         destruct (sp_find n (level_sig lv)) as [p|] eqn:EF; [|reflexivity].
         destruct (sp_offered p) eqn:EO; [|reflexivity].
         cbn [a_pos a_ty mk_arg andb]. unfold sp_positional.
-        destruct (sp_required p && as_pos); cbn [negb andb]; [reflexivity|].
+        destruct (sp_required p && as_pos); cbn [negb andb a_ty mk_arg]; [reflexivity|].
         destruct (conv (sp_ty p) r) as [v|] eqn:EC; [|reflexivity].
         apply (IH top lv cn mn (with_ns st (ns_set n v (ls_ns st))) (asg ++ [(n, r)]) acc HW).
         eapply inv_set; eauto.
       + (* a bare word *)
-        cbn [parse sp_walk]. rewrite filter_pos_spec, nth_error_map, sl_sig_of.
+        cbn [parse sp_walk]. unfold level_args at 1. rewrite filter_pos_spec by (apply lv_wf_guard2; auto). rewrite nth_error_map, sl_sig_of.
         change (fun p : param => sp_offered p && sp_positional as_pos p)
           with (fun p : param => sp_offered p && (sp_required p && as_pos)).
         destruct (nth_error (filter (fun p : param => sp_offered p && (sp_required p && as_pos)) (level_sig lv)) (ls_npos st))
@@ -921,7 +947,7 @@ Section Sim.
           destruct (inv_set top lv st asg (p_name p) r p v HW HI) as [X1 X2]; auto.
           { apply sp_find_In; auto. apply lv_wf_nodup; auto. }
           split; auto.
-        * destruct r as [z|m|b|?|l];
+        * destruct r as [z|m|b| |l];
             try (destruct (level_subs lv); reflexivity).
           destruct (level_subs lv) as [subs|] eqn:ES.
           2:{ rewrite (sl_sub_none lv cn mn m HW); [reflexivity|rewrite ES; exact I]. }
@@ -982,4 +1008,637 @@ Section Sim.
         * destruct lv as [[n s|n i ms|kids|]|s]; try reflexivity.
           destruct (has_param s_config s); [exact I|reflexivity].
   Qed.
+
+  (* ---- from the frames to the calls: nest, the dispatch loop, _run_component -------------------- *)
+  Notation cvmap l := (map (fun kv : str * value => (fst kv, CV (snd kv))) l).
+
+  Lemma remove_key_app {A} k (a b : list (str * A)) : remove_key k (a ++ b) = remove_key k a ++ remove_key k b.
+  Proof. induction a as [|[k' x] a IH]; simpl; auto. destruct (str_eqb k k'); simpl; rewrite IH; auto. Qed.
+
+  Lemma remove_key_notin {A} k (l : list (str * A)) : ~ In k (map fst l) -> remove_key k l = l.
+  Proof.
+    induction l as [|[k' x] l IH]; simpl; auto. intro H.
+    rewrite str_eqb_false by (intro X; apply H; auto). rewrite IH; auto.
+  Qed.
+
+  Lemma keys_cvmap (l : ns) : map fst (cvmap l) = map fst l.
+  Proof. rewrite map_map. reflexivity. Qed.
+
+  Lemma kwargs_cvmap (l : ns) : kwargs_of (cvmap l) = Ok l.
+  Proof. induction l as [|[k v] l IH]; simpl; auto. rewrite IH. reflexivity. Qed.
+
+  Lemma keys_sub s asg k : In k (map fst (ns_args (args_of_sig as_pos s) asg)) -> In k (names s).
+  Proof.
+    rewrite keys_ns_args. intro H. apply in_map_iff in H. destruct H as [a [H1 H2]]. subst k.
+    eapply dests_subset; eauto.
+  Qed.
+
+  Lemma remove_config_entry hcb s asg :
+    ~ In s_config (names s) ->
+    remove_key s_config (cvmap (cfg_entry hcb ++ ns_args (args_of_sig as_pos s) asg)) =
+    cvmap (ns_args (args_of_sig as_pos s) asg).
+  Proof.
+    intro H. rewrite map_app, remove_key_app.
+    rewrite (remove_key_notin s_config (cvmap (ns_args (args_of_sig as_pos s) asg)))
+      by (rewrite keys_cvmap; intro X; apply H; eapply keys_sub; eauto).
+    destruct hcb; reflexivity.
+  Qed.
+
+  Lemma assoc_cv_none s asg k :
+    ~ In k (names s) -> assoc k (cvmap (ns_args (args_of_sig as_pos s) asg)) = None.
+  Proof. intro H. apply assoc_None. rewrite keys_cvmap. intro X. apply H. eapply keys_sub; eauto. Qed.
+
+  Lemma remove_cv_notin s asg k :
+    ~ In k (names s) ->
+    remove_key k (cvmap (ns_args (args_of_sig as_pos s) asg)) = cvmap (ns_args (args_of_sig as_pos s) asg).
+  Proof. intro H. apply remove_key_notin. rewrite keys_cvmap. intro X. apply H. eapply keys_sub; eauto. Qed.
+
+  Lemma neq_sub_cfg : s_subcommand <> s_config.
+  Proof. discriminate. Qed.
+
+  Lemma run_fn n s top asg b :
+    comp_wf (CFn n s) -> py_call s (ns_args (args_of_sig as_pos s) asg) = Ok b ->
+    run_component (CFn n s) (nest [mkf top (LComp (CFn n s)) asg None]) = Ok ([([n], b)], RetCall 0).
+  Proof.
+    intros HW HC. apply comp_wf_fn in HW. destruct HW as [H1 [H2 _]].
+    apply check_fn_sig_ok in H1. destruct H1 as [_ [H1 _]]. apply has_param_false in H2.
+    unfold nest, mkf. unfold level_args; cbn [fr_ns fr_sub level_sig]. rewrite app_nil_r.
+    unfold run_component. rewrite remove_config_entry by auto. rewrite remove_cv_notin by auto.
+    rewrite kwargs_cvmap. cbn [bind]. rewrite HC. reflexivity.
+  Qed.
+
+  Lemma run_cls0 n i ms top asg b :
+    comp_wf (CCls n i ms) -> py_call i (ns_args (args_of_sig as_pos i) asg) = Ok b ->
+    run_component (CCls n i ms) (nest [mkf top (LComp (CCls n i ms)) asg None]) = Ok ([([n; s__init__], b)], RetInstance).
+  Proof.
+    intros HW HC. apply comp_wf_cls in HW. destruct HW as [_ [H2 [H1 _]]].
+    apply check_fn_sig_ok in H1. destruct H1 as [_ [H1 _]]. apply has_param_false in H2.
+    unfold nest, mkf. unfold level_args; cbn [fr_ns fr_sub level_sig]. rewrite app_nil_r.
+    unfold run_component. rewrite remove_config_entry by auto. rewrite assoc_cv_none by auto.
+    rewrite remove_cv_notin by auto.
+    rewrite kwargs_cvmap. cbn [bind]. rewrite HC. reflexivity.
+  Qed.
+
+  Lemma meth_ok_facts i ms m s :
+    meth_names_ok i ms = true -> assoc m ms = Some s ->
+    ~ In m (names i) /\ m <> s_config /\ m <> s_subcommand.
+  Proof.
+    unfold meth_names_ok. intros HM HA. apply andb_true_iff in HM. destruct HM as [_ HM].
+    rewrite forallb_forall in HM.
+    assert (HI : In m (map fst ms)) by (apply assoc_In in HA; change m with (fst (m, s)); apply in_map; auto).
+    specialize (HM _ HI). repeat (apply andb_true_iff in HM; destruct HM as [HM ?]).
+    apply negb_true_iff in H, H0, H1. apply has_param_false in H1.
+    repeat split; auto; intro X; subst m; rewrite str_eqb_refl in *; discriminate.
+  Qed.
+
+  Lemma run_cls n i ms top asg b m s fs log ret :
+    comp_wf (CCls n i ms) -> py_call i (ns_args (args_of_sig as_pos i) asg) = Ok b ->
+    assoc m ms = Some s -> chain false (LMeth s) n m fs log ret ->
+    run_component (CCls n i ms) (nest (mkf top (LComp (CCls n i ms)) asg (Some m) :: fs)) =
+    Ok (([n; s__init__], b) :: log, shift ret).
+  Proof.
+    intros HW HC HA HCh. apply comp_wf_cls in HW. destruct HW as [HM [H2 [H1 [_ HMs]]]].
+    apply check_fn_sig_ok in H1. destruct H1 as [_ [H1 _]]. apply has_param_false in H2.
+    destruct (meth_ok_facts _ _ _ _ HM HA) as [F1 [F2 F3]].
+    destruct (HMs _ _ (assoc_In _ _ _ HA)) as [_ [HMc _]]. apply has_param_false in HMc.
+    inversion HCh; subst. clear HCh.
+    unfold nest, mkf. unfold level_args; cbn [fr_ns fr_sub level_sig]. rewrite app_nil_r.
+    unfold run_component.
+    rewrite remove_key_app, remove_config_entry by auto.
+    cbn [remove_key]. rewrite (str_eqb_false s_config s_subcommand) by discriminate.
+    rewrite (str_eqb_false s_config m) by auto.
+    rewrite assoc_app, assoc_cv_none by auto. cbn [assoc]. rewrite str_eqb_refl.
+    rewrite remove_key_app, remove_cv_notin by auto. cbn [remove_key]. rewrite str_eqb_refl.
+    rewrite (str_eqb_false s_subcommand m) by auto.
+    rewrite HA.
+    rewrite assoc_app, assoc_cv_none by auto. cbn [assoc]. rewrite str_eqb_refl. cbn [bind].
+    rewrite remove_key_app, remove_cv_notin by auto. cbn [remove_key]. rewrite str_eqb_refl.
+    rewrite app_nil_r, kwargs_cvmap. cbn [bind]. rewrite HC. cbn [bind].
+    rewrite remove_config_entry by auto. rewrite kwargs_cvmap. cbn [bind].
+    match goal with H : py_call s _ = Ok _ |- _ => rewrite H end. reflexivity.
+  Qed.
+
+  Lemma cfg_get_snoc path : path <> [] -> forall init n m,
+    cfg_get path init = Some (CN n) -> cfg_get (path ++ [m]) init = assoc m n.
+  Proof.
+    induction path as [|k path IH]; [congruence|]. intros _ init n m. destruct path as [|k' path'].
+    - simpl. intro H. rewrite H. reflexivity.
+    - intro H. simpl app. cbn [cfg_get] in *.
+      destruct (assoc k init) as [[v|n']|]; try discriminate. apply IH; [discriminate|exact H].
+  Qed.
+
+  Lemma comps_get_snoc_grp path : path <> [] -> forall kids kids' m,
+    comps_get path kids = Some (CGrp kids') -> comps_get (path ++ [m]) kids = assoc m kids'.
+  Proof.
+    induction path as [|k path IH]; [congruence|]. intros _ kids kids' m. destruct path as [|k' path'].
+    - simpl. intro H. rewrite H. reflexivity.
+    - intro H. simpl app. cbn [comps_get] in *.
+      destruct (assoc k kids) as [[| |kk|]|]; try discriminate. apply IH; [discriminate|exact H].
+  Qed.
+
+  Lemma comps_get_snoc_leaf path : path <> [] -> forall kids c m,
+    comps_get path kids = Some c -> is_leaf c = true -> comps_get (path ++ [m]) kids = None.
+  Proof.
+    induction path as [|k path IH]; [congruence|]. intros _ kids c m. destruct path as [|k' path'].
+    - simpl. intros H HL. rewrite H. destruct c; try discriminate; reflexivity.
+    - intros H HL. simpl app. cbn [comps_get] in *.
+      destruct (assoc k kids) as [[| |kk|]|]; try discriminate. eapply IH; eauto. discriminate.
+  Qed.
+
+  Lemma dispatch_sim kids0 init : forall top lv cn mn fs log ret,
+    chain top lv cn mn fs log ret ->
+    forall c, lv = LComp c -> comp_wf c ->
+    forall path fuel, path <> [] -> comps_get path kids0 = Some c ->
+      cfg_get path init = Some (CN (nest fs)) -> length fs < fuel ->
+      exists path' c' sub,
+        dispatch_loop fuel kids0 init path = Ok path' /\ comps_get path' kids0 = Some c' /\
+        cfg_get path' init = Some (CN sub) /\ run_component c' sub = Ok (log, ret).
+  Proof.
+    induction 1; intros c0 Hlv HW path fuel HP HCg HCf HFu; inversion Hlv; subst c0; clear Hlv;
+      (destruct fuel as [|fuel]; [inversion HFu|]).
+    - (* a function *)
+      exists path, (CFn n s), (nest [mkf top (LComp (CFn n s)) asg None]).
+      split; [|split; [auto|split; [auto|apply run_fn; auto]]].
+      cbn [dispatch_loop]. rewrite HCf.
+      assert (HN : assoc s_subcommand (nest [mkf top (LComp (CFn n s)) asg None]) = None).
+      { apply comp_wf_fn in HW. destruct HW as [_ [H2 _]]. apply has_param_false in H2.
+        unfold nest, mkf. unfold level_args; cbn [fr_ns fr_sub level_sig]. rewrite app_nil_r, map_app, assoc_app.
+        rewrite (assoc_cv_none s asg s_subcommand H2). destruct (level_has_config as_pos top (LComp (CFn n s))); reflexivity. }
+      rewrite HN. reflexivity.
+    - (* a class without methods *)
+      exists path, (CCls n i []), (nest [mkf top (LComp (CCls n i [])) asg None]).
+      split; [|split; [auto|split; [auto|apply run_cls0; auto]]].
+      cbn [dispatch_loop]. rewrite HCf.
+      assert (HN : assoc s_subcommand (nest [mkf top (LComp (CCls n i [])) asg None]) = None).
+      { apply comp_wf_cls in HW. destruct HW as [_ [H2 _]]. apply has_param_false in H2.
+        unfold nest, mkf. unfold level_args; cbn [fr_ns fr_sub level_sig]. rewrite app_nil_r, map_app, assoc_app.
+        rewrite (assoc_cv_none i asg s_subcommand H2). destruct (level_has_config as_pos top (LComp (CCls n i []))); reflexivity. }
+      rewrite HN. reflexivity.
+    - (* a class and one of its methods *)
+      exists path, (CCls n i ms), (nest (mkf top (LComp (CCls n i ms)) asg (Some m) :: fs)).
+      split; [|split; [auto|split; [auto|eapply run_cls; eauto]]].
+      cbn [dispatch_loop]. rewrite HCf.
+      assert (HN : assoc s_subcommand (nest (mkf top (LComp (CCls n i ms)) asg (Some m) :: fs)) = Some (CV (VStr m))).
+      { apply comp_wf_cls in HW. destruct HW as [_ [H2 _]]. apply has_param_false in H2.
+        unfold mkf, level_args; cbn [nest fr_ns fr_sub level_sig]. rewrite map_app, !assoc_app.
+        rewrite (assoc_cv_none i asg s_subcommand H2). cbn [assoc]. rewrite str_eqb_refl.
+        destruct (level_has_config as_pos top (LComp (CCls n i ms))); reflexivity. }
+      rewrite HN. rewrite (comps_get_snoc_leaf path HP kids0 (CCls n i ms) m); auto.
+    - (* a group: one step down *)
+      apply comp_wf_grp in HW. destruct HW as [EK [ES HWk]].
+      pose proof (assoc_In _ _ _ H0) as HIn.
+      assert (Hmc : m <> s_config) by (eapply kid_names_ok_noconfig; eauto).
+      assert (Hms : m <> s_subcommand).
+      { intro X. subst m. apply mem_str_false in ES. apply ES. change s_subcommand with (fst (s_subcommand, c)). apply in_map. auto. }
+      destruct (IHchain c eq_refl (HWk _ _ HIn) (path ++ [m]) fuel) as [path' [c' [sub [D1 [D2 [D3 D4]]]]]].
+      + destruct path; discriminate.
+      + rewrite (comps_get_snoc_grp path HP kids0 kids m HCg). exact H0.
+      + rewrite (cfg_get_snoc path HP init _ m HCf). cbn [nest fr_ns fr_sub map app assoc fst snd].
+        rewrite (str_eqb_false m s_config) by auto. rewrite (str_eqb_false m s_subcommand) by auto.
+        rewrite str_eqb_refl. reflexivity.
+      + simpl in HFu. lia.
+      + exists path', c', sub. split; auto.
+        cbn [dispatch_loop]. rewrite HCf. cbn [nest fr_ns fr_sub map app assoc fst snd].
+        rewrite (str_eqb_false s_subcommand s_config) by discriminate. rewrite str_eqb_refl.
+        rewrite (comps_get_snoc_grp path HP kids0 kids m HCg), H0. exact D1.
+  Qed.
+
+  (* ---- what auto_cli refuses to build ----------------------------------------------------------- *)
+  Lemma clash_named l s : clash l s = named l s.
+  Proof. unfold clash, named, names. induction s as [|p s IH]; simpl; auto. rewrite IH. reflexivity. Qed.
+
+  Definition bc_rel (r : res unit) (refused : bool) : Prop :=
+    match r with
+    | Ok _ => refused = false
+    | Err EBuild => refused = true
+    | Err EUnmodelled => True
+    | Err _ => False
+    end.
+
+  Lemma check_fn_sig_spec s : bc_rel (check_fn_sig s) (named [s_help; s_config; s_print_config] s).
+  Proof.
+    unfold check_fn_sig. destruct (sig_ok s); simpl; auto. rewrite clash_named.
+    destruct (named _ s); simpl; auto.
+  Qed.
+
+  Lemma check_meth_sig_spec s :
+    bc_rel (check_meth_sig s) (named (s_help :: (if has_param s_config s then [] else [s_print_config])) s).
+  Proof.
+    unfold check_meth_sig. destruct (sig_ok s); simpl; auto. rewrite clash_named.
+    destruct (named _ s); simpl; auto.
+  Qed.
+
+  Lemma check_meths_spec ms :
+    bc_rel (check_meths ms)
+           (existsb (fun ms => named (s_help :: (if has_param s_config (snd ms) then [] else [s_print_config])) (snd ms)) ms).
+  Proof.
+    induction ms as [|[m s] ms IH]; simpl; auto.
+    pose proof (check_meth_sig_spec s) as H. destruct (check_meth_sig s) as [[]|e]; simpl in *.
+    - rewrite H. simpl. exact IH.
+    - destruct e; auto. rewrite H. reflexivity.
+  Qed.
+
+  Lemma comp_ind2 (P : comp -> Prop) :
+    (forall n s, P (CFn n s)) -> (forall n i ms, P (CCls n i ms)) ->
+    (forall kids, Forall (fun kc => P (snd kc)) kids -> P (CGrp kids)) -> P CHelp -> forall c, P c.
+  Proof.
+    intros Hf Hc Hg Hh. fix IH 1. intro c. destruct c as [n s|n i ms|kids|].
+    - apply Hf.
+    - apply Hc.
+    - apply Hg. induction kids as [|[k c] kids IHk]; constructor; [apply IH|exact IHk].
+    - apply Hh.
+  Qed.
+
+  Lemma build_check_spec c : bc_rel (build_check c) (sp_refuses c).
+  Proof.
+    induction c as [n s|n i ms|kids HF|] using comp_ind2.
+    - apply check_fn_sig_spec.
+    - cbn [build_check sp_refuses].
+      destruct (negb (meth_names_ok i ms) || has_param s_subcommand i); [exact I|].
+      pose proof (check_fn_sig_spec i) as H. destruct (check_fn_sig i) as [[]|e]; simpl in *.
+      + rewrite H. simpl. apply check_meths_spec.
+      + destruct e; auto. rewrite H. reflexivity.
+    - cbn [build_check sp_refuses].
+      destruct (negb (kid_names_ok kids)); [exact I|].
+      destruct (mem_str s_subcommand (map fst kids)); [reflexivity|]. cbn [orb].
+      induction kids as [|[k c] kids IHk]; [reflexivity|].
+      inversion HF as [|? ? H1 H2]; subst. simpl in H1.
+      destruct (build_check c) as [[]|e]; simpl in *.
+      + rewrite H1. simpl. apply IHk. exact H2.
+      + destruct e; auto. rewrite H1. reflexivity.
+    - reflexivity.
+  Qed.
+
+  Lemma guard_grp_kids kids : guard_comp (CGrp kids) = forallb (fun kc => guard_comp (snd kc)) kids.
+  Proof. simpl. induction kids as [|[k c] kids IH]; simpl; auto. rewrite IH. reflexivity. Qed.
+
+  Lemma guard2_grp_kids kids : guard2_comp (CGrp kids) = forallb (fun kc => guard2_comp (snd kc)) kids.
+  Proof. simpl. induction kids as [|[k c] kids IH]; simpl; auto. rewrite IH. reflexivity. Qed.
+
+  Lemma forallb_map_c12 {A B} (f : B -> bool) (g : A -> B) l : forallb f (map g l) = forallb (fun x => f (g x)) l.
+  Proof. induction l as [|x l IH]; simpl; auto. rewrite IH. reflexivity. Qed.
+
+  Lemma normalize_spec cs :
+    match normalize cs with
+    | Ok c => sp_top cs = Some c /\ c <> CHelp /\
+              (no_reserved_param_names cs = true -> guard_comp c = true) /\
+              (no_private_optional_without_default cs = true -> guard2_comp c = true)
+    | Err EBuild => sp_top cs = None
+    | Err EUnmodelled => True
+    | Err _ => False
+    end.
+  Proof.
+    destruct cs as [c|l|kids]; simpl.
+    - destruct (is_leaf c) eqn:E; [|exact I]. repeat split; auto. intro X; subst; discriminate.
+    - destruct l as [|c1 [|c2 l]]; [reflexivity| |].
+      + destruct (is_leaf c1) eqn:E; [|exact I]. repeat split; auto.
+        * intro X; subst; discriminate.
+        * simpl. rewrite andb_true_r. auto.
+        * simpl. rewrite andb_true_r. auto.
+      + match goal with |- context [if ?b then _ else _] => destruct b end; [|exact I].
+        repeat split; try discriminate.
+        * intro H. rewrite guard_grp_kids, forallb_map_c12. exact H.
+        * intro H. rewrite guard2_grp_kids, forallb_map_c12. exact H.
+    - destruct kids as [|kc kids]; [reflexivity|].
+      destruct (mem_str s__help (map fst (kc :: kids))); [reflexivity|].
+      repeat split; try discriminate.
+      + intro H. rewrite guard_grp_kids. exact H.
+      + intro H. rewrite guard2_grp_kids. exact H.
+  Qed.
+
+  (* ---- the theorem: under the two guards the code-shaped model does what the reference semantics says *)
+  Theorem model_refines_spec cs toks :
+    no_reserved_param_names cs = true -> no_private_optional_without_default cs = true ->
+    match auto_cli conv as_pos cs toks with
+    | Ok (log, ret) => spec conv as_pos cs toks = Done log ret
+    | Err EParse => spec conv as_pos cs toks = Rejected
+    | Err EBuild => spec conv as_pos cs toks = Refused
+    | Err ECrash => False
+    | Err _ => True
+    end.
+  Proof.
+    intros G1 G2. unfold auto_cli, spec, sp_run.
+    pose proof (normalize_spec cs) as HN. destruct (normalize cs) as [c|e]; cbn [bind].
+    2:{ destruct e; try contradiction; auto. rewrite HN. reflexivity. }
+    destruct HN as [HT [HNH [HG1 HG2]]]. rewrite HT.
+    pose proof (build_check_spec c) as HB. destruct (build_check c) as [[]|e] eqn:EB; cbn [bind]; simpl in HB.
+    2:{ destruct e; try contradiction; auto. rewrite HB. reflexivity. }
+    rewrite HB.
+    assert (HWc : comp_wf c) by (repeat split; auto).
+    assert (HW : lv_wf (LComp c)) by (apply lv_wf_comp; auto).
+    assert (HS : slevel_of c = Some (slv_of (LComp c) [] [])) by (destruct c; auto; congruence).
+    rewrite HS.
+    unfold init_state. cbn [apply_docs bind].
+    match goal with |- context [parse conv as_pos true (LComp c) ?st0 toks []] =>
+      pose proof (parse_sim toks true (LComp c) [] [] st0 [] [] HW) as HP end.
+    cbn [ls_npos ls_pend] in HP.
+    match type of HP with ?A -> _ => assert (HI : A) by (split; [reflexivity|intros k r []]) end.
+    specialize (HP HI). clear HI.
+    match goal with |- context [parse conv as_pos true (LComp c) ?st0 toks []] =>
+      destruct (parse conv as_pos true (LComp c) st0 toks []) as [fs|e] end; cbn [bind].
+    2:{ destruct e; try contradiction; auto. rewrite HP. reflexivity. }
+    destruct HP as [fs' [log [ret [HP1 [HP2 HP3]]]]]. simpl in HP1. subst fs'. rewrite HP2.
+    destruct c as [n s|n i ms|kids|]; [| | |congruence].
+    - inversion HP3; subst. erewrite run_fn; eauto.
+    - inversion HP3; subst.
+      + erewrite run_cls0; eauto.
+      + erewrite run_cls; eauto.
+    - inversion HP3; subst.
+      cbn [nest fr_ns fr_sub map app assoc fst snd].
+      rewrite (str_eqb_false s_subcommand s_config) by discriminate. rewrite str_eqb_refl.
+      match goal with
+      | HA : assoc m kids = Some ?c', HC : chain false (LComp ?c') _ m ?fs0 log ret |- _ =>
+          rename HA into HAm; rename HC into HCh
+      end.
+      destruct (comp_wf_grp _ HWc) as [EK [ES HWk]].
+      pose proof (assoc_In _ _ _ HAm) as HIn.
+      assert (Hmc : m <> s_config) by (eapply kid_names_ok_noconfig; eauto).
+      assert (Hms : m <> s_subcommand).
+      { intro X. subst m. apply mem_str_false in ES. apply ES.
+        apply in_map_iff. eexists. split; [|exact HIn]. reflexivity. }
+      edestruct (dispatch_sim kids
+                   [(s_config, CV VNone); (s_subcommand, CV (VStr m)); (m, CN (nest fs0))]
+                   _ _ _ _ _ _ _ HCh _ eq_refl (HWk _ _ HIn) [m] (S (S (length fs0))))
+        as [path' [c'' [sub [D1 [D2 [D3 D4]]]]]].
+      + discriminate.
+      + simpl. exact HAm.
+      + cbn [cfg_get assoc]. rewrite (str_eqb_false m s_config) by auto. rewrite (str_eqb_false m s_subcommand) by auto.
+        rewrite str_eqb_refl. reflexivity.
+      + lia.
+      + cbn [length]. rewrite D1. cbn [bind]. rewrite D2, D3. rewrite D4. reflexivity.
+  Qed.
+
+  Corollary binds_exactly cs toks log ret :
+    no_reserved_param_names cs = true -> no_private_optional_without_default cs = true ->
+    auto_cli conv as_pos cs toks = Ok (log, ret) -> spec conv as_pos cs toks = Done log ret.
+  Proof. intros G1 G2 H. pose proof (model_refines_spec cs toks G1 G2) as HR. rewrite H in HR. exact HR. Qed.
+
+  Corollary never_crashes cs toks :
+    no_reserved_param_names cs = true -> no_private_optional_without_default cs = true ->
+    auto_cli conv as_pos cs toks <> Err ECrash.
+  Proof. intros G1 G2 H. pose proof (model_refines_spec cs toks G1 G2) as HR. rewrite H in HR. exact HR. Qed.
+
+  Corollary rejects_exactly cs toks :
+    no_reserved_param_names cs = true -> no_private_optional_without_default cs = true ->
+    (auto_cli conv as_pos cs toks = Err EParse -> spec conv as_pos cs toks = Rejected) /\
+    (auto_cli conv as_pos cs toks = Err EBuild -> spec conv as_pos cs toks = Refused).
+  Proof.
+    intros G1 G2. pose proof (model_refines_spec cs toks G1 G2) as HR.
+    split; intro H; rewrite H in HR; exact HR.
+  Qed.
+
+  (* ---- what the reference semantics itself guarantees (so that "refines the spec" says something) *)
+  (* each parameter of the callee exactly once, in signature order, nothing else ... *)
+  Lemma sp_bind_names s asg b : sp_bind conv s asg = Some b -> map fst b = names s.
+  Proof.
+    revert b. induction s as [|p s IH]; simpl; intros b H.
+    - inversion H. reflexivity.
+    - destruct (sp_value conv asg p) as [v|]; [|discriminate].
+      destruct (sp_bind conv s asg) as [b'|]; [|discriminate]. inversion H; subst. simpl. rewrite (IH b'); auto.
+  Qed.
+
+  (* ... bound to the last given value converted to the declared type, else to the default *)
+  Lemma sp_bind_values s asg b :
+    sp_bind conv s asg = Some b -> NoDup (names s) ->
+    forall p, In p s -> assoc (p_name p) b = sp_value conv asg p.
+  Proof.
+    revert b. induction s as [|p0 s IH]; simpl; intros b H ND p HI; [tauto|].
+    inversion ND as [|? ? Hn ND']; subst.
+    destruct (sp_value conv asg p0) as [v|] eqn:EV; [|discriminate].
+    destruct (sp_bind conv s asg) as [b'|] eqn:EB; [|discriminate]. inversion H; subst. simpl.
+    destruct HI as [HI|HI].
+    - subst p0. rewrite str_eqb_refl. auto.
+    - rewrite str_eqb_false; [apply IH; auto|]. intro X. apply Hn. rewrite <- X. apply in_map. exact HI.
+  Qed.
+
+  Lemma sp_finish_exact s asg b :
+    sp_finish conv s asg = Some b -> NoDup (names s) ->
+    map fst b = names s /\
+    (forall p, In p s -> assoc (p_name p) b = sp_value conv asg p) /\
+    (forall p, In p s -> sp_required p = true -> exists r, last_asg (p_name p) asg = Some r).
+  Proof.
+    unfold sp_finish. destruct (sp_complete conv s asg) eqn:EC; [|discriminate]. intros H ND.
+    split; [eapply sp_bind_names; eauto|]. split; [eapply sp_bind_values; eauto|].
+    intros p HI HR. unfold sp_complete in EC. rewrite forallb_forall in EC. specialize (EC _ HI).
+    rewrite HR in EC. simpl in EC. unfold sp_value in EC.
+    assert (HO : sp_offered p = true) by (destruct (sp_offered p) eqn:E; auto; rewrite (not_offered_not_required p E) in HR; discriminate).
+    rewrite HO in EC.
+    destruct (last_asg (p_name p) asg) as [r|]; eauto.
+    unfold sp_required in HR. destruct (sp_default p); discriminate.
+  Qed.
+
+  Lemma sp_value_given asg p r :
+    sp_offered p = true -> last_asg (p_name p) asg = Some r -> sp_value conv asg p = conv (sp_ty p) r.
+  Proof. intros HO HL. unfold sp_value. rewrite HO, HL. reflexivity. Qed.
+
+  Lemma sp_value_default asg p :
+    last_asg (p_name p) asg = None -> sp_value conv asg p = sp_default p.
+  Proof. intro HL. unfold sp_value. rewrite HL. destruct (sp_offered p); reflexivity. Qed.
+
+  Lemma given_else_default asg p :
+    (forall r, sp_offered p = true -> last_asg (p_name p) asg = Some r -> sp_value conv asg p = conv (sp_ty p) r) /\
+    (last_asg (p_name p) asg = None -> sp_value conv asg p = sp_default p).
+  Proof. split; [intros r H1 H2; apply sp_value_given; auto | apply sp_value_default]. Qed.
+
+  (* one call for a function or a method ... *)
+  Lemma sp_walk_fn top n s toks : forall asg npos secs log ret,
+    sp_walk conv as_pos top (SFn n s) asg npos secs toks = Some (log, ret) ->
+    exists asg' b, sp_finish conv s asg' = Some b /\ log = [([n], b)] /\ ret = RetCall 0.
+  Proof.
+    induction toks as [|t toks IH]; intros asg npos secs log ret; cbn [sp_walk sl_sig sl_sub].
+    - destruct (sp_finish conv s asg) as [b|] eqn:E; simpl; [|discriminate]. intro H. inversion H; subst. eauto.
+    - destruct t as [k r|r|d].
+      + destruct (sp_assignable conv as_pos s true k r); [apply IH|discriminate].
+      + destruct (nth_error _ npos) as [p|].
+        * destruct (conv (sp_ty p) r); [apply IH|discriminate].
+        * destruct r; discriminate.
+      + destruct (sl_has_config top (SFn n s)); [|discriminate].
+        destruct (sp_doc conv as_pos (SFn n s) d asg secs) as [[asg' secs']|]; [apply IH|discriminate].
+  Qed.
+
+  Lemma sp_walk_meth top cn m s toks : forall asg npos secs log ret,
+    sp_walk conv as_pos top (SMeth cn m s) asg npos secs toks = Some (log, ret) ->
+    exists asg' b, sp_finish conv s asg' = Some b /\ log = [([cn; m], b)] /\ ret = RetCall 0.
+  Proof.
+    induction toks as [|t toks IH]; intros asg npos secs log ret; cbn [sp_walk sl_sig sl_sub].
+    - destruct (sp_finish conv s asg) as [b|] eqn:E; simpl; [|discriminate]. intro H. inversion H; subst. eauto.
+    - destruct t as [k r|r|d].
+      + destruct (sp_assignable conv as_pos s true k r); [apply IH|discriminate].
+      + destruct (nth_error _ npos) as [p|].
+        * destruct (conv (sp_ty p) r); [apply IH|discriminate].
+        * destruct r; discriminate.
+      + destruct (sl_has_config top (SMeth cn m s)); [|discriminate].
+        destruct (sp_doc conv as_pos (SMeth cn m s) d asg secs) as [[asg' secs']|]; [apply IH|discriminate].
+  Qed.
+
+  (* ... the constructor with its own parameters, then the chosen method with its own, for a class *)
+  Lemma sp_walk_cls top n i ms toks : forall asg npos secs log ret,
+    sp_walk conv as_pos top (SCls n i ms) asg npos secs toks = Some (log, ret) ->
+    exists asg1 b1, sp_finish conv i asg1 = Some b1 /\
+      ((ms = [] /\ log = [([n; s__init__], b1)] /\ ret = RetInstance) \/
+       (exists m s asg2 b2, assoc m ms = Some s /\ sp_finish conv s asg2 = Some b2 /\
+                            log = [([n; s__init__], b1); ([n; m], b2)] /\ ret = RetCall 1)).
+  Proof.
+    induction toks as [|t toks IH]; intros asg npos secs log ret; cbn [sp_walk sl_sig].
+    - destruct ms; [|discriminate].
+      destruct (sp_finish conv i asg) as [b|] eqn:E; simpl; [|discriminate]. intro H. inversion H; subst.
+      exists asg, b. auto.
+    - destruct t as [k r|r|d].
+      + destruct (sp_assignable conv as_pos i true k r); [apply IH|discriminate].
+      + destruct (nth_error _ npos) as [p|].
+        * destruct (conv (sp_ty p) r); [apply IH|discriminate].
+        * destruct r as [z|m|b| |l]; try discriminate. cbn [sl_sub].
+          destruct (assoc m ms) as [s|] eqn:EA; [|discriminate].
+          destruct (sp_docs conv as_pos (SMeth n m s) (secs_for m secs) [] []) as [[asg' secs']|]; [|discriminate].
+          destruct (sp_finish conv i asg) as [b1|] eqn:EF; [|discriminate].
+          destruct (sp_walk conv as_pos false (SMeth n m s) asg' 0 secs' toks) as [[log' ret']|] eqn:EW; [|discriminate].
+          intro H. inversion H; subst. destruct (sp_walk_meth _ _ _ _ _ _ _ _ _ _ EW) as [asg2 [b2 [H1 [H2 H3]]]]. subst.
+          exists asg, b1. split; auto. right. exists m, s, asg2, b2. auto.
+      + destruct (sl_has_config top (SCls n i ms)); [|discriminate].
+        destruct (sp_doc conv as_pos (SCls n i ms) d asg secs) as [[asg' secs']|]; [apply IH|discriminate].
+  Qed.
+
+  (* a list / dict of components: the first bare word selects one entry, and the whole log is that entry's *)
+  Lemma sp_walk_grp top kids toks : forall asg npos secs log ret,
+    sp_walk conv as_pos top (SGrp kids) asg npos secs toks = Some (log, ret) ->
+    exists pre m c lv' asg' secs' rest,
+      toks = pre ++ KPos (RStr m) :: rest /\ (forall t, In t pre -> exists d, t = KCfg d) /\
+      m <> s__help /\ assoc m kids = Some c /\ slevel_of c = Some lv' /\
+      sp_walk conv as_pos false lv' asg' 0 secs' rest = Some (log, ret).
+  Proof.
+    induction toks as [|t toks IH]; intros asg npos secs log ret; cbn [sp_walk sl_sig]; [discriminate|].
+    destruct t as [k r|r|d].
+    - unfold sp_assignable. simpl. discriminate.
+    - simpl filter. destruct npos; simpl nth_error; (destruct r as [z|m|b| |l]; try discriminate); cbn [sl_sub];
+        (destruct (str_eqb m s__help) eqn:E; [discriminate|]);
+        (destruct (assoc m kids) as [c|] eqn:EA; [|discriminate]);
+        (destruct (slevel_of c) as [lv'|] eqn:ES; [|discriminate]);
+        (destruct (sp_docs conv as_pos lv' (secs_for m secs) [] []) as [[asg' secs']|]; [|discriminate]);
+        intro H; exists [], m, c, lv', asg', secs', toks;
+        (repeat split; auto; [intros t []| intro X; subst; rewrite str_eqb_refl in E; discriminate]).
+    - destruct (sp_doc conv as_pos (SGrp kids) d asg secs) as [[asg' secs']|]; [|discriminate].
+      intro H. destruct (IH _ _ _ _ _ H) as [pre [m [c [lv' [a' [s' [rest [H1 [H2 H3]]]]]]]]].
+      exists (KCfg d :: pre), m, c, lv', a', s', rest. split; [rewrite H1; reflexivity|]. split; auto.
+      intros t [Ht|Ht]; eauto.
+  Qed.
+
+  (* for a class given to auto_cli: constructor and method each receive exactly their own parameters *)
+  Theorem class_split n i ms toks log ret :
+    no_reserved_param_names (One (CCls n i ms)) = true ->
+    no_private_optional_without_default (One (CCls n i ms)) = true ->
+    auto_cli conv as_pos (One (CCls n i ms)) toks = Ok (log, ret) ->
+    exists b1, map fst b1 = names i /\
+      ((ms = [] /\ log = [([n; s__init__], b1)] /\ ret = RetInstance) \/
+       (exists m s b2, assoc m ms = Some s /\ map fst b2 = names s /\
+                       log = [([n; s__init__], b1); ([n; m], b2)] /\ ret = RetCall 1)).
+  Proof.
+    intros G1 G2 H. pose proof (binds_exactly _ _ _ _ G1 G2 H) as HS.
+    unfold spec, sp_run in HS. cbn [sp_top slevel_of] in HS.
+    destruct (sp_refuses (CCls n i ms)); [discriminate|].
+    destruct (sp_walk conv as_pos true (SCls n i ms) [] 0 [] toks) as [[log' ret']|] eqn:EW; [|discriminate].
+    inversion HS; subst. destruct (sp_walk_cls _ _ _ _ _ _ _ _ _ _ EW) as [asg1 [b1 [F1 F2]]].
+    exists b1. split.
+    - unfold sp_finish in F1. destruct (sp_complete conv i asg1); [|discriminate]. eapply sp_bind_names; eauto.
+    - destruct F2 as [F2|[m [s [asg2 [b2 [A1 [A2 [A3 A4]]]]]]]]; [left; auto|].
+      right. exists m, s, b2. repeat split; auto.
+      unfold sp_finish in A2. destruct (sp_complete conv s asg2); [|discriminate]. eapply sp_bind_names; eauto.
+  Qed.
+
+  (* ---- the clauses of the property about required / Optional parameters, on the code-shaped table *)
+  Lemma required_iff_no_default p a :
+    arg_of_param as_pos p = Some a ->
+    (a_req a = true <-> (p_default p = None /\ is_optional (p_ty p) = false)) /\
+    (a_pos a = true <-> (a_req a = true /\ as_pos = true)).
+  Proof.
+    unfold arg_of_param. destruct (p_default p) as [v|]; simpl.
+    - destruct (starts_underscore (p_name p)); [discriminate|]. intro H. inversion H; subst; simpl.
+      intuition congruence.
+    - destruct (is_optional (p_ty p)); simpl.
+      + destruct (starts_underscore (p_name p)); [discriminate|]. intro H. inversion H; subst; simpl.
+        intuition congruence.
+      + intro H. inversion H; subst; simpl. intuition congruence.
+  Qed.
+
+  Lemma optional_defaults_none p :
+    p_default p = None -> is_optional (p_ty p) = true -> starts_underscore (p_name p) = false ->
+    arg_of_param as_pos p =
+    Some {| a_dest := p_name p; a_pos := false; a_ty := p_ty p; a_req := false; a_def := VNone |}.
+  Proof. intros H1 H2 H3. unfold arg_of_param. rewrite H1, H2. simpl. rewrite H3. reflexivity. Qed.
 End Sim.
+
+(* ---- witnesses: the guards are needed (the unchanged code violates the property there), and the
+        hypotheses of the theorem are satisfiable by non-trivial inputs ------------------------------ *)
+Definition w_run : str := [114;117;110]%N.                 (* "run" *)
+Definition w_tool : str := [84;111;111;108]%N.             (* "Tool" *)
+Definition w_train : str := [116;114;97;105;110]%N.        (* "train" *)
+Definition w_alpha : str := [97;108;112;104;97]%N.         (* "alpha" *)
+Definition w_beta : str := [98;101;116;97]%N.              (* "beta" *)
+Definition w_hid : str := [95;104;105;100]%N.              (* "_hid" *)
+Definition w_sigma : str := [115;105;103;109;97]%N.        (* "sigma" *)
+Definition w_p (n : str) (t : ty) (d : option value) : param :=
+  {| p_name := n; p_kind := PosOrKw; p_ty := t; p_default := d |}.
+
+(* def run(subcommand: int = 1)   with   --subcommand=5   -> the callee receives 1 *)
+Lemma reserved_subcommand_refuted :
+  exists cs toks,
+    no_reserved_param_names cs = false /\
+    auto_cli conv_simple true cs toks = Ok ([([w_run], [(s_subcommand, VInt 1)])], RetCall 0) /\
+    spec conv_simple true cs toks = Done [([w_run], [(s_subcommand, VInt 5)])] (RetCall 0).
+Proof.
+  exists (One (CFn w_run [w_p s_subcommand TInt (Some (VInt 1))])), [KOpt s_subcommand (RInt 5)].
+  vm_compute. auto.
+Qed.
+
+(* def run(subcommand: int)   with   5   -> TypeError escapes auto_cli *)
+Lemma reserved_subcommand_crash_refuted :
+  exists cs toks,
+    no_reserved_param_names cs = false /\
+    auto_cli conv_simple true cs toks = Err ECrash /\
+    spec conv_simple true cs toks = Done [([w_run], [(s_subcommand, VInt 5)])] (RetCall 0).
+Proof.
+  exists (One (CFn w_run [w_p s_subcommand TInt None])), [KPos (RInt 5)].
+  vm_compute. auto.
+Qed.
+
+(* class Tool: def __init__(self, alpha: int = 1); def train(self, config: int = 3)
+   with   train --config=7   -> the method receives 3 *)
+Lemma reserved_config_refuted :
+  exists cs toks,
+    no_reserved_param_names cs = false /\
+    auto_cli conv_simple true cs toks =
+      Ok ([([w_tool; s__init__], [(w_alpha, VInt 1)]); ([w_tool; w_train], [(s_config, VInt 3)])], RetCall 1) /\
+    spec conv_simple true cs toks =
+      Done [([w_tool; s__init__], [(w_alpha, VInt 1)]); ([w_tool; w_train], [(s_config, VInt 7)])] (RetCall 1).
+Proof.
+  exists (One (CCls w_tool [w_p w_alpha TInt (Some (VInt 1))] [(w_train, [w_p s_config TInt (Some (VInt 3))])])),
+         [KPos (RStr w_train); KOpt s_config (RInt 7)].
+  vm_compute. auto.
+Qed.
+
+(* def load(_hid: Optional[int], sigma: bool)   with   true   -> TypeError (missing '_hid') escapes auto_cli *)
+Lemma private_optional_refuted :
+  exists cs toks,
+    no_reserved_param_names cs = true /\ no_private_optional_without_default cs = false /\
+    auto_cli conv_simple true cs toks = Err ECrash /\
+    spec conv_simple true cs toks = Done [([w_run], [(w_hid, VNone); (w_sigma, VBool true)])] (RetCall 0).
+Proof.
+  exists (One (CFn w_run [w_p w_hid (TOpt TInt) None; w_p w_sigma TBool None])), [KPos (RBool true)].
+  vm_compute. auto.
+Qed.
+
+(* a non-trivial input inside both guards: a dict holding a class with a method; values given by a
+   --config section of the top level, positionally, by option (twice: last wins), and left to defaults *)
+Definition w_ex_comps : components :=
+  Dct [(w_tool, CCls w_tool [w_p w_alpha TInt None; w_p w_beta (TOpt TStr) None]
+                     [(w_train, [w_p w_alpha TInt (Some (VInt 2)); w_p w_sigma TBool None])]);
+       (w_run, CFn w_run [])].
+Definition w_ex_toks : list tok :=
+  [KCfg [(w_tool, CSec [(w_beta, CLeaf (RStr w_sigma))])];
+   KPos (RStr w_tool); KPos (RInt 9); KPos (RStr w_train); KOpt w_alpha (RInt 4); KPos (RBool true); KOpt w_alpha (RInt 5)].
+
+Lemma guards_satisfiable :
+  no_reserved_param_names w_ex_comps = true /\ no_private_optional_without_default w_ex_comps = true /\
+  auto_cli conv_simple true w_ex_comps w_ex_toks =
+    Ok ([([w_tool; s__init__], [(w_alpha, VInt 9); (w_beta, VStr w_sigma)]);
+         ([w_tool; w_train], [(w_alpha, VInt 5); (w_sigma, VBool true)])], RetCall 1).
+Proof. vm_compute. auto. Qed.
